@@ -5,7 +5,9 @@ python case: ( mode pattern rec mdc thread ast envsel )
   mode    1 construct + encode, 2 construct only, 4 = as 1 but the harness first encodes the
           pid/thread formatters, then forks and encodes in the child (the model sees mode 1),
           5 = as 1 but the harness process first switches its time zone (TZ variable; the zone stays
-          switched for the later cases of that process; the date oracle is rendered after the switch)
+          switched for the later cases of that process; the date oracle is rendered after the switch),
+          6 = as 1 but the message argument's Display impl itself encodes another record through a `{m}`
+          pattern on the same thread before writing its text (re-entrant encode; both must be unaffected)
   pattern code points
   rec     ( level msg target module? file? line? )      options are () or (v)
   mdc     ( (key value).. )      thread () | (name)
@@ -39,7 +41,7 @@ MDC = ("X", "mdc")
 
 UNI = ["é", "€", "\U0001d11e", "́", "١", "Ⅳ", "中", "ß"]
 LIT_CHARS = list("abcxyzLMdmh 0159:<>.-_%,;=|/'\"#") + UNI
-FILLS = [" ", "~", "0", "*", "é", "\U0001d11e", "}", "{", "(", ")", ":", "<", ">", ".", "\\", "́", "5"]
+FILLS = [" ", "~", "0", "*", "é", "\U0001d11e", "€", "中", "}", "{", "(", ")", ":", "<", ">", ".", "\\", "́", "5"]
 
 # strftime directives whose rendering cannot change within a run / may change
 STABLE_DIR = ["%Y", "%C", "%y", "%G", "%%", "%z", "%:z", "%Z", "%m", "%b", "%B", "%h", "%U", "%W", "%V"]
@@ -282,7 +284,7 @@ def model_lines(ctx, cases, lines, impl_lines, keep_junk=False):
         ast = c[5]
         if ast and not keep_junk:
             ast = [ast[0]]
-        out.append(vc.show([1 if c[0] in (4, 5) else c[0], c[1], c[2], c[3], c[4], cls, rt, tt, ast]))
+        out.append(vc.show([1 if c[0] in (4, 5, 6) else c[0], c[1], c[2], c[3], c[4], cls, rt, tt, ast]))
     return out
 
 
